@@ -6,6 +6,8 @@ CONSTANTS
   RepackCommitBeforeFsync = FALSE
   RepackUnlinkOldFirst = FALSE
   SeekBackWithoutTruncate = FALSE
+  RepackNoIntermediateCommit = FALSE
+  ImportFsyncOnlyLast = FALSE
   DeleteIndexFirst = TRUE
 INVARIANT Recoverable
 INVARIANT KeysUnique
